@@ -5,6 +5,8 @@ cd "$(dirname "$0")"
 export GOFLAGS=-mod=mod GOPROXY=off GOSUMDB=off GOTOOLCHAIN=local
 mkdir -p bin evidence replays
 (cd engine && go build -o ../bin/gosym .)
+# encoder unit tests (regex NFA encoding against the real regexp package)
+(cd engine && go test -count=1 . > /tmp/verif_enginetest.log 2>&1) || { cat /tmp/verif_enginetest.log; echo "setup: engine unit tests FAILED"; exit 1; }
 # translator validation: the repository's own test vectors through the engine in concrete mode
 export VERIF_DIR="$(pwd)"
 for h in asn1parser-vectors hashing-vectors; do
